@@ -527,7 +527,7 @@ func rules2BitTable(c *Ctx, r *Report, itonFn *ssa.Function, itonOf map[int64]in
 		it[k], jt[k] = aval{true, int64(k / 4)}, aval{true, int64(k % 4)}
 	}
 	a := &vsa{c: c, f: initFn, dom: dom, entry: st.Block(), region: map[*ssa.BasicBlock]bool{st.Block(): true},
-		preset: map[ssa.Value][]aval{iphi: it, jphi: jt},
+		preset:   map[ssa.Value][]aval{iphi: it, jphi: jt},
 		sliceTab: map[*ssa.Global][]int64{}, mapKeys: map[*ssa.Global]map[int64]bool{}, mapVals: map[*ssa.Global]map[int64]int64{}}
 	a.run()
 	if a.err != "" {
